@@ -72,7 +72,9 @@ class Enc:
 class Pool:
     def __init__(self, encs: List[Enc]) -> None:
         self.all = encs
-        self.body = [e for e in encs if not e.cf]          # usable inside histories
+        # usable inside histories (the undefined opcodes 20/BF raise NotImplementedError on the Python core and
+        # would only cut histories short; they are still probed)
+        self.body = [e for e in encs if not e.cf and not e.mn.startswith("???")]
         self.safe = [e for e in encs if e.safe]
         if len(self.body) < 100:
             raise HarnessError("C07 encoding pool too small")
@@ -285,6 +287,29 @@ def _bias_memory(st: S.Stream, case: Dict[str, Any]) -> None:
     case["mem"] = [x for x in extra if x[0] not in code_addrs] + case["mem"]
 
 
+def _shift(it: Tuple[Any, ...]) -> Tuple[Any, ...]:
+    """Item with its target index moved by one (an item was inserted at the front)."""
+    if it[0] in ("call", "callf"):
+        return (it[0], it[1] + 1)
+    if it[0] in ("jrf", "jrb"):
+        return (it[0], it[1], it[2] + 1)
+    return it
+
+
+def _variant(st: S.Stream, e: Enc) -> Optional[bytes]:
+    """The same encoding with its last byte changed, if that is still a valid non-control-flow, non-counted
+    instruction of the same length."""
+    if len(e.code) < 2 or e.cf or e.counted:
+        return None
+    v = e.code[:-1] + bytes([e.code[-1] ^ (1 << st.below(8))])
+    if G.info_len(v + G.NOP_PAD) != len(e.code):
+        return None
+    ve = Enc(e.pre, v)
+    if ve.cf or ve.counted or ve.mn != e.mn:
+        return None
+    return v
+
+
 def gen_probe_case(pool: Pool, seed: int, shard: int, j: int, thorough: bool, nshards: int = 16) -> Dict[str, Any]:
     st = S.Stream(seed, shard, j, 0xC07A)
     nr = 1 if st.chance(7, 10) else (2 if st.chance(2, 3) else 3)
@@ -305,7 +330,19 @@ def gen_probe_case(pool: Pool, seed: int, shard: int, j: int, thorough: bool, ns
         n = st.choice((4, 6, 10, 16, 24, 40, 80, 150) if thorough else (4, 6, 10, 16, 24, 40))
         prog = build_program(st, pool, n, imax=6)
         want = probe["regs"]["PC"] if st.chance(1, 2) else None
-        base, overlapped = place(prog, st, want)
+        variant = _variant(st, e) if (want is not None and st.chance(1, 3)) else None
+        if variant is not None and (want & 0xFFFF) + prog.offsets()[-1] + 8 < 0xFFF0:
+            # the history *starts* at the probe's address with the probe's own encoding, last byte changed
+            # (same head bytes at the same address: the classic stale decode-cache situation)
+            prog.items.insert(0, ("raw", variant))
+            prog.items = [prog.items[0]] + [_shift(it) for it in prog.items[1:]]
+            if prog.handler is not None:
+                prog.handler += 1
+            prog.steps += 1
+            base, overlapped = want, True
+            plabels.append("history-starts-with-probe-variant")
+        else:
+            base, overlapped = place(prog, st, want)
         overlap_any = overlap_any or overlapped
         hist = program_case(prog, st, base, 220 if thorough else 90)
         junk = _junk(st)
@@ -315,6 +352,7 @@ def gen_probe_case(pool: Pool, seed: int, shard: int, j: int, thorough: bool, ns
         shapes += prog.shape
         if r == nr - 1:
             labels += [x for x in plabels if x.startswith(("ptr:", "mem:"))]
+        labels += [x for x in plabels if x.startswith("history-starts")]
     return {"kind": "probe", "rounds": rounds, "shape": jhash(shapes, 8), "overlap": overlap_any,
             "ref_first": st.chance(1, 2),
             "labels": labels + (["history-overlaps-probe-pc"] if overlap_any else [])}
